@@ -280,20 +280,28 @@ fn main() {
                 } else {
                     let usz: u64 = r.get("layout").split(',').next().and_then(|x| x.parse().ok()).unwrap_or(0);
                     let mut start_bit: Option<u64> = None;
+                    // clang's absolute bit offset minus the offset inside the unit must be the same for every
+                    // bit-field of the unit (zero-width bit-fields can move a later one: `char : 0; enum E : 0; unsigned b : 22`
+                    // under `#pragma pack(1)`)
+                    let mut inconsistent = false;
                     let mut need_bits = 0u64;
                     for bf in r.get("bfs").split(',') {
                         let p: Vec<&str> = bf.split(':').collect();
                         if p.len() >= 5 {
                             if let (Ok(off), Ok(w)) = (p[2].parse::<u64>(), p[3].parse::<u64>()) {
                                 need_bits = need_bits.max(off + w);
-                                if start_bit.is_none() { if let Ok(abs) = p[4].parse::<u64>() { if abs >= off { start_bit = Some(abs - off); } } }
+                                if let Ok(abs) = p[4].parse::<u64>() {
+                                    if abs >= off {
+                                        match start_bit { None => start_bit = Some(abs - off), Some(sb) => if w > 0 && sb != abs - off { inconsistent = true; } }
+                                    } else if w > 0 { inconsistent = true; }
+                                }
                             }
                         }
                     }
                     if is_union {
                         if need_bits > usz * 8 { union_unit_short.insert(cn.clone()); }
                     } else if let (Some(sb), Some(pe)) = (start_bit, pe) {
-                        if sb / 8 != pe { padded_before_unit.insert(cn.clone()); }
+                        if sb / 8 != pe || inconsistent { padded_before_unit.insert(cn.clone()); }
                     }
                     prev_end.insert(comp, start_bit.map(|sb| sb / 8 + usz));
                 }
